@@ -265,9 +265,8 @@ Definition load_lrv (l : loc) : M (bytes * slice) :=
 
 (* map-form loop of NaturalLanguageValues.MarshalJSON: `for _, val := range n` copies each entry into a
    loop variable (a fresh one-cell array) and works on the copy *)
-(* [keys]: the member names written so far (fix 05721dc).  Each is produced in a fresh bytes.Buffer (stringBytes into
-   a new buffer: an allocation of the model) and kept in a fresh slice of slices, which only this call can reach: the
-   list of their contents is carried as a value *)
+(* [keys]: the tags written so far, as read back (fix 05721dc and its follow-up: tagAsRead).  Each is a fresh string
+   kept in a fresh slice, which only this call can reach: the list of their contents is carried as a value *)
 Fixpoint nlv_loop (n : slice) (k : nat) (count : nat) (buf : slice) (empty : bool) (keys : list bytes) : M (slice * bool) :=
   match count with
   | O => ret (buf, empty)
@@ -278,8 +277,8 @@ Fixpoint nlv_loop (n : slice) (k : nat) (count : nat) (buf : slice) (empty : boo
       let '(r, v) := e' in
       if (length r =? 0) || (s_len v =? 0) then nlv_loop n (S k) c' buf empty keys
       else
-        kb <- st_string_bytes nil_slice r ;;
-        key <- read_bytes kb ;;
+        (* tagAsRead: reads the (immutable) tag, builds the key in memory only this call can reach *)
+        let key := sanitize r in
         if existsb (bytes_eqb key) keys then nlv_loop n (S k) c' buf empty keys
         else
         let keys := keys ++ [key] in
